@@ -35,13 +35,67 @@ CLAIMED = {
         note="As C11. Lookup is judged for full-length keys and stored prefixes only (the property's domain).",
         technique="TLA+ spec LPM.tla; TLC model checking + script replay + TLC trace validation",
         design_ref="4.3, 7 (C13)"),
+    "C01": dict(
+        engine="db",
+        text='Table.tla/DB.tla model snapshots as frozen copies of the committed root (TLC: action property Prop_C01_Frozen on the bounded model). drv_db retains snapshots and re-issues the same queries (every query kind on primary, unique, multi-key, unique/non-unique LPM and revision indexes, NumObjects, Revision) after later committed, aborted and pending transactions and after graveyard collection; DBTrace.tla (TLC) rejects any re-query whose result differs from its first observation (C01_Stable).',
+        note='TLC 1.8 + CommunityModules; the Go harness logs replies faithfully; sequential driver (one goroutine) under testing/synctest; sampled shaped histories (small-scope); two live objects never share a unique secondary key; LPM Get/List judged for full-length keys and stored prefixes.',
+        technique="TLA+ specs Table.tla + DB.tla; TLC model checking + TLC trace validation (DBTrace.tla) of logs of the real DB",
+        design_ref='4.5, 4.6, 7 (C01)'),
+    "C02": dict(
+        engine="db",
+        text='DB.tla: Commit publishes all tables of a transaction in one step; Abort changes nothing (TLC: Prop_C02_Abort on the bounded model). drv_db aborts about half of the transactions (writes on every index kind, Changes(), initializer registration/completion, InsertWatch) and TLC validates that the full query battery, revisions, channel bits, initializer state and all later transactions equal what DB.tla predicts from the pre-transaction state (C02_AbortNoTrace, C06_C02_AbortOpen, C02_AbortPanic). The cross-goroutine atomicity half is decided by the schedule driver once built; this commit claims the sequential half.',
+        note='TLC 1.8 + CommunityModules; the Go harness logs replies faithfully; sequential driver (one goroutine) under testing/synctest; sampled shaped histories (small-scope); two live objects never share a unique secondary key; LPM Get/List judged for full-length keys and stored prefixes.',
+        technique="TLA+ specs Table.tla + DB.tla; TLC model checking + TLC trace validation (DBTrace.tla) of logs of the real DB",
+        design_ref='4.6, 7 (C02)'),
+    "C03": dict(
+        engine="db",
+        text='Table.tla defines Insert/Modify/Delete/DeleteAll/CompareAndSwap/CompareAndDelete as operators on a keyed map with the documented replies; DB.tla adds the not-locked/closed-transaction errors. TLC model-checks DB.tla and validates every reply (had/old/error), read-your-writes inside the transaction and the unchanged state after rejected operations in logs of the real code.',
+        note='TLC 1.8 + CommunityModules; the Go harness logs replies faithfully; sequential driver (one goroutine) under testing/synctest; sampled shaped histories (small-scope); two live objects never share a unique secondary key; LPM Get/List judged for full-length keys and stored prefixes.',
+        technique="TLA+ specs Table.tla + DB.tla; TLC model checking + TLC trace validation (DBTrace.tla) of logs of the real DB",
+        design_ref='4.5, 7 (C03)'),
+    "C04": dict(
+        engine="db",
+        text='Table.tla gives the exact ordered result of Get/List/Prefix/LowerBound/All/NumObjects/ByRevision for primary, unique, multi-key non-unique, unique and non-unique LPM indexes; TLC recomputes every logged query result (fresh snapshots and inside write transactions, keys empty / prefixes of one another / 0x00 0x01 0xff, objects whose key sets grow, shrink or become empty).',
+        note='TLC 1.8 + CommunityModules; the Go harness logs replies faithfully; sequential driver (one goroutine) under testing/synctest; sampled shaped histories (small-scope); two live objects never share a unique secondary key; LPM Get/List judged for full-length keys and stored prefixes.',
+        technique="TLA+ specs Table.tla + DB.tla; TLC model checking + TLC trace validation (DBTrace.tla) of logs of the real DB",
+        design_ref='4.5, 7 (C04)'),
+    "C06": dict(
+        engine="db",
+        text='DB.tla keeps for every channel the query, its result and table revision at hand-out; AfterPublish computes which channels must be closed after a commit (result changed / table changed for AllWatch / object changed for InsertWatch) and MayClose which may be (newer table revision visible). TLC validates the channel bits sampled at hand-out and after every commit/abort: C06_Must, C06_C02_AbortOpen, C06_FreshOpen, C06_CloseAfterVisible. Known finding L (rejected compare-and-* closes channels) is matched by signature.',
+        note='TLC 1.8 + CommunityModules; the Go harness logs replies faithfully; sequential driver (one goroutine) under testing/synctest; sampled shaped histories (small-scope); two live objects never share a unique secondary key; LPM Get/List judged for full-length keys and stored prefixes.',
+        technique="TLA+ specs Table.tla + DB.tla; TLC model checking + TLC trace validation (DBTrace.tla) of logs of the real DB",
+        design_ref='4.6, 7 (C06)'),
+    "C07": dict(
+        engine="db",
+        text='DB.tla models change iterators by what they have delivered (replay map, delivered deletions, cursor) against the ideal graveyard; TLC validates every Next of the real code: strictly increasing revisions, only committed changes whatever transaction is passed, replay = snapshot and all owed deletions delivered at full consumption, nothing delivered with an open watch, open watch closes at the next changing commit. Virtual-time graveyard collection runs in between (testing/synctest).',
+        note='TLC 1.8 + CommunityModules; the Go harness logs replies faithfully; sequential driver (one goroutine) under testing/synctest; sampled shaped histories (small-scope); two live objects never share a unique secondary key; LPM Get/List judged for full-length keys and stored prefixes.',
+        technique="TLA+ specs Table.tla + DB.tla; TLC model checking + TLC trace validation (DBTrace.tla) of logs of the real DB",
+        design_ref='4.6, 7 (C07)'),
+    "C08": dict(
+        engine="db",
+        text="DB.tla Needed(t) = deletions some open iterator created before them has not been handed; the real graveyard size (public Metrics interface) must be >= |Needed| always and = |Needed| after virtual-time quiescence, and C07's convergence must still hold for lagging iterators after collection runs. The scan/write race of the collector is decided by the schedule driver once built.",
+        note='TLC 1.8 + CommunityModules; the Go harness logs replies faithfully; sequential driver (one goroutine) under testing/synctest; sampled shaped histories (small-scope); two live objects never share a unique secondary key; LPM Get/List judged for full-length keys and stored prefixes.',
+        technique="TLA+ specs Table.tla + DB.tla; TLC model checking + TLC trace validation (DBTrace.tla) of logs of the real DB",
+        design_ref='4.6, 7 (C08)'),
+    "C09": dict(
+        engine="db",
+        text='Table.tla assigns revisions (strictly increasing per successful write, unchanged on no-op/rejected), TableOK states uniqueness and table revision = latest write; TLC checks Inv_C09_TableOK/SnapOK and Prop_C09_Monotone on the model and validates Table.Revision, every object revision in every query result and ByRevision queries for bounds 0..8 in logs of the real code.',
+        note='TLC 1.8 + CommunityModules; the Go harness logs replies faithfully; sequential driver (one goroutine) under testing/synctest; sampled shaped histories (small-scope); two live objects never share a unique secondary key; LPM Get/List judged for full-length keys and stored prefixes.',
+        technique="TLA+ specs Table.tla + DB.tla; TLC model checking + TLC trace validation (DBTrace.tla) of logs of the real DB",
+        design_ref='4.5, 4.6, 7 (C09)'),
+    "C19": dict(
+        engine="db",
+        text="DB.tla keeps the pending initializers per table state (registered/marked in the transaction's working copy, published at commit); TLC validates Initialized/PendingInitializers on every snapshot and transaction, that init channels close when the table becomes initialized (C19_InitSignal) and never before an initialized committed state exists (C19_InitEarly), across aborted registrations/marks.",
+        note='TLC 1.8 + CommunityModules; the Go harness logs replies faithfully; sequential driver (one goroutine) under testing/synctest; sampled shaped histories (small-scope); two live objects never share a unique secondary key; LPM Get/List judged for full-length keys and stored prefixes.',
+        technique="TLA+ specs Table.tla + DB.tla; TLC model checking + TLC trace validation (DBTrace.tla) of logs of the real DB",
+        design_ref='4.6, 7 (C19)'),
 }
 
 ALL = [f"C{i:02d}" for i in range(1, 21)]
 
 def main():
     checks = []
-    for pid, c in CLAIMED.items():
+    for pid, c in sorted(CLAIMED.items()):
         checks.append({
             "property_id": pid,
             "quick_cmd": f"./vcheck {pid} --tier quick",
@@ -76,6 +130,9 @@ def main():
             {"name": "lpm", "path": "harness/drv_lpm.go + spec/LPM.tla + spec/trace/LPMTrace.tla",
              "serves_properties": ["C13"],
              "kind_free_text": "script interpreter for lpm.Trie + TLA+ trace specification checked by TLC"},
+            {"name": "db", "path": "harness/drv_db.go + spec/Table.tla + spec/DB.tla + spec/trace/DBTrace.tla",
+             "serves_properties": ["C01", "C02", "C03", "C04", "C06", "C07", "C08", "C09", "C19"],
+             "kind_free_text": "sequential script interpreter for statedb.DB under testing/synctest + TLA+ trace specification checked by TLC"},
         ],
         "checks": checks,
         "not_applicable": na,
